@@ -267,9 +267,9 @@ func (t *taskRun) direct() {
 		_, _, e2 = sipsp.ParseAllURIHdrs(b, clampOffs(s.N2, len(b)), &h2, g)
 		t.out(int64(e1), int64(e2), b2i(sipsp.URIHdrsLstEq(&h1, a, &h2, b)))
 	case "ContainsIP4":
-		var dst [4]byte
-		d := dst[:]
-		if s.N1 == 1 {
+		var dst [8]byte
+		d := dst[:s.N1%9]
+		if s.N1%9 == 0 {
 			d = nil
 		}
 		ok, o, l := sipsp.ContainsIP4(a, d)
@@ -283,12 +283,11 @@ func (t *taskRun) direct() {
 			t.viol = fmt.Sprintf("offset-range: IP4Prefix position %d outside %d bytes", n, len(a))
 		}
 	case "ContainsIP6":
-		var dst [16]byte
-		d := dst[:]
-		if s.N1 == 1 {
+		var dst [24]byte
+		// caller-supplied destination of any length (nil, too short, exact, longer)
+		d := dst[:s.N1%25]
+		if s.N1%25 == 0 {
 			d = nil
-		} else if s.N1 == 2 {
-			d = dst[:7]
 		}
 		ok, o, l := sipsp.ContainsIP6(a, d)
 		t.out(b2i(ok), int64(o), int64(l), hashBytes(dst[:]))
